@@ -313,6 +313,7 @@ def analyse_slices(ctx, loops):
         lo, hi, r = found[strand]
         rep.add('K2', fi.site(r), f'{strand} k-mer slice start', lo == want[strand][0], expected=want[strand][0], found=lo, stmt=f'{strand}: lo')
         rep.add('K2', fi.site(r), f'{strand} k-mer slice stop', hi == want[strand][1], expected=want[strand][1], found=hi, stmt=f'{strand}: hi')
+    rep.account_returns('K2', fi, [found[k][2] for k in found], 'k-mer slice')
     # K3: composition with the positions yielded by the search loops
     loc = sym('loc')
     f, rv = loops['forward'], loops['reverse']
@@ -361,6 +362,7 @@ def analyse_slices(ctx, loops):
             and m.resolve_call(fk, av.slice) == 'gambit.kmers.KmerMatch.kmer_indices'
         rep.add('K4', fk.site(r), f'{strand}: the encoded bytes are self.seq[self.kmer_indices()]', ok, expected='self.seq[self.kmer_indices()]', found=u(av),
                 stmt=f'{strand}: operand')
+    rep.account_returns('K4', fk, [disp[k][1] for k in disp], 'k-mer index')
     c07.check_bindings(ctx)
 
 
@@ -415,6 +417,7 @@ def analyse_accumulate(ctx):
                 not other or all(any(x is adds[0] for x in ast.walk(s)) for s in other), expected='index computation only', found=[u(s) for s in other],
                 stmt='try extent')
 
+    rep.account_returns('K5', fi, [], 'match (the loop must see every occurrence: no return at all)')
     # K9
     fc = m.func('gambit.sigs.calc.calc_signature')
     rep.functions.add(fc.qualname)
